@@ -99,6 +99,25 @@ def templates(chk, wit):
     return T
 
 
+def realtime_listing(chk, prog, T2S):
+    """list_chunks_in_volume: the prefix and limit requested, one identifier per object in order"""
+    t, f, ev = safe_body(chk, prog, LC, [LO])
+    if t is not None:
+        w = f.where()
+        site, vol, mk = P("site"), P("volume"), P("max_keys")
+        prefix = ("fmt", T2S, (("disp", site), ("disp", fld(vol, "0"))))
+        req = call(LO, C(REALTIME, "&str"), prefix, some(mk))
+        aw = uniq(awaited(t, LO))
+        expect_c(chk, "R-TEMPLATE", LC, aw[0][1] if len(aw) == 1 else ("awaits", len(aw)), req, w, "lists bucket %s with prefix {site}/{volume}/ and the given max-keys" % REALTIME, key="request")
+        oks = leaves_ok(t)
+        res = ("vfld", ("await", req), "Ok", "0")
+        last = call("core::iter::traits::iterator::Iterator::last", call("core::str::<impl str>::split", fld(sym.ELEM, "key"), C(ord("/"), "char")))
+        nm = sym.opt_match(last, lambda x: x, lambda: fld(sym.ELEM, "key"))
+        want = ("seq", fld(res, "objects"), (), adt(CI, "ChunkIdentifier", (("site", site), ("volume", vol), ("name", nm), ("date_time", fld(sym.ELEM, "last_modified")))))
+        got = oks[0][1][3][0][1] if len(oks) == 1 else ("oks", len(oks))
+        expect_c(chk, "R-WIRE", LC, sym.prune(got), sym.prune(want), w, "one identifier per object, in order: requested site and volume, the key's last segment, the object's last_modified", key="identifiers")
+
+
 def realtime_download(chk, prog, T3):
     """download_chunk: the key requested, and the (identifier, chunk) pair returned"""
     t, f, ev = safe_body(chk, prog, DC, [DO, CHUNK_NEW])
@@ -182,22 +201,7 @@ def run(chk, tier):
         gates = only_gates(t, [("discr", call(AID + "::date_time", ident)), ("discr", call(AID + "::site", ident))])
         chk.ob("R-ORDER", DF, not gates, "the object is requested for every name with a readable date-time and site" if not gates else
                "the request is additionally conditional on: %s" % "; ".join(gates)[:300], w, key="no-extra-gate")
-    # ---- real-time listing
-    t, f, ev = safe_body(chk, prog, LC, [LO])
-    if t is not None:
-        w = f.where()
-        site, vol, mk = P("site"), P("volume"), P("max_keys")
-        prefix = ("fmt", T2S, (("disp", site), ("disp", fld(vol, "0"))))
-        req = call(LO, C(REALTIME, "&str"), prefix, some(mk))
-        aw = uniq(awaited(t, LO))
-        expect_c(chk, "R-TEMPLATE", LC, aw[0][1] if len(aw) == 1 else ("awaits", len(aw)), req, w, "lists bucket %s with prefix {site}/{volume}/ and the given max-keys" % REALTIME, key="request")
-        oks = leaves_ok(t)
-        res = ("vfld", ("await", req), "Ok", "0")
-        last = call("core::iter::traits::iterator::Iterator::last", call("core::str::<impl str>::split", fld(sym.ELEM, "key"), C(ord("/"), "char")))
-        nm = sym.opt_match(last, lambda x: x, lambda: fld(sym.ELEM, "key"))
-        want = ("seq", fld(res, "objects"), (), adt(CI, "ChunkIdentifier", (("site", site), ("volume", vol), ("name", nm), ("date_time", fld(sym.ELEM, "last_modified")))))
-        got = oks[0][1][3][0][1] if len(oks) == 1 else ("oks", len(oks))
-        expect_c(chk, "R-WIRE", LC, sym.prune(got), sym.prune(want), w, "one identifier per object, in order: requested site and volume, the key's last segment, the object's last_modified", key="identifiers")
+    realtime_listing(chk, prog, T2S)
     realtime_download(chk, prog, T3)
     fns = [LO, DO, LF, DF, LC, DC]
     panics.check_no_panic(chk, prog, [p + "::{closure#0}" for p in fns] + fns + [GLM], "s3 client")
